@@ -652,6 +652,7 @@ OpTarget(s, fr) ==
     [] fr.nm = "a_restart" -> <<"a_quit", 0, 1, 0, 0>>
     [] fr.nm = "a_reload" -> <<"a_reload", 0, fr.a, fr.b, 0>>
     [] fr.nm = "quit" -> <<"a_quit", 0, 0, 0, 0>>
+    [] fr.nm = "reloadconfig" -> <<"reloadcfg", 0, 0, 0, 0>>
 P_op(s, f) ==
   LET fr == s.fr[f] IN
   CASE fr.pc = "0" -> IF fr.nm = "do_action" /\ fr.a # 0 /\ s.ws[fr.w].st = "stopped" THEN Ret(s, f, 1)
@@ -732,6 +733,7 @@ ExclSlot(q, one) ==
     [] q.cmd = "decr" -> "watcher_decr"
     [] q.cmd = "set" -> "watcher_set_opt"
     [] q.cmd = "quit" -> "arbiter_stop"
+    [] q.cmd = "reloadconfig" -> "arbiter_reload_config"
     [] OTHER -> ""
 OpName(q, one) ==
   CASE q.cmd \in {"start", "stop"} -> IF one THEN q.cmd ELSE "a_" \o q.cmd
@@ -773,7 +775,8 @@ P_req(s, f) ==
          ELSE IF q.cmd \in {"status", "numprocesses", "list", "numwatchers", "options"}
          THEN Reply(Goto(s, f, "z"), cid, q.mid, IF q.cmd = "status" /\ q.hasname THEN s.ws[i].st ELSE "ok", 0)
          ELSE IF q.cmd \in {"add", "rm"} THEN Goto(s, f, "d")
-         ELSE IF q.cmd \notin {"incr", "decr", "kill", "signal", "start", "stop", "restart", "reload", "set", "quit"}
+         ELSE IF q.cmd \notin {"incr", "decr", "kill", "signal", "start", "stop", "restart", "reload", "set", "quit",
+                               "reloadconfig"}
          THEN Reply(Goto(s, f, "z"), cid, q.mid, "error", 2)          \* unknown command
          ELSE IF q.cmd \in {"incr", "decr"} /\ s.ws[i].sing THEN Reply(Goto(s, f, "z"), cid, q.mid, "ok", 0)
          ELSE IF q.cmd = "kill" THEN Call(s, f, "k2", "cmd_kill", i, q.pid, q.signum, q.G)
@@ -820,7 +823,7 @@ P_req(s, f) ==
          ELSE LET n == NW(s) + 1
                   wc == [n |-> q.name, ln |-> q.lname, np |-> q.addnp, G |-> q.addG, W |-> q.addW, sing |-> q.addsing,
                          resp |-> TRUE, auto |-> TRUE, prio |-> 0, ssig |-> SIGTERM, sch |-> FALSE, hup |-> FALSE,
-                         hooks |-> <<>>, retry |-> 5]
+                         hooks |-> <<>>, retry |-> 5, ver |-> 1]
                   wr == [st |-> "stopped", rel |-> FALSE, np |-> q.addnp, pr |-> <<>>, sing |-> q.addsing, resp |-> TRUE, od |-> FALSE,
                          G |-> q.addG, W |-> q.addW, ssig |-> SIGTERM, sch |-> FALSE, hup |-> FALSE]
                   s1 == [s EXCEPT !.cfg.ws = Append(@, wc), !.ws = Append(@, wr), !.wl = Append(@, n),
@@ -884,6 +887,77 @@ P_rm(s, f) ==
     [] fr.pc = "2" -> Await(s, f, "3")
     [] fr.pc = "3" -> Ret(DropKids(s, f), f, 1)
 
+\* ---- Arbiter.reload_from_config()   (the [circus] section and the sockets are held fixed)
+\*      q.file: the watcher sections of the file as it is now, in file order: records with the fields of a
+\*      configuration record (n, ln, np, ver, G, W, sing, prio, auto, resp, ssig, sch, hup, retry; ver stands for
+\*      every key the model holds no word for: cmd, args, env ...).
+\*      The three loops run over Python SETS of names: their order is whatever the hash table says.  The recorder
+\*      logs every get_watcher / get_watcher_config call of the function (`selw` / `selc` lines) and q.plan
+\*      (chg, del, add) is read off those lines (TraceCore.PlanOf); the model emits the same lines, so a name
+\*      processed in a loop where the model does not expect it is a divergence.
+\*      fr.l = names still to do in the current loop, fr.m = [file, plan, chg: names found changed], fr.a = index of the
+\*      watcher being added
+FileNames(q) == [j \in 1..Len(q.file) |-> q.file[j].ln]
+FileRec(q, n) == q.file[CHOOSE j \in 1..Len(q.file) : q.file[j].ln = n]
+CfgSame(c, r) == /\ c.ver = r.ver /\ c.G = r.G /\ c.W = r.W /\ c.sing = r.sing /\ c.prio = r.prio /\ c.auto = r.auto
+                 /\ c.resp = r.resp /\ c.ssig = r.ssig /\ c.sch = r.sch /\ c.hup = r.hup /\ c.retry = r.retry
+OrderBy(S, pref, base) == SelectSeq(pref, LAMBDA x : x \in S) \o SelectSeq(base, LAMBDA x : x \in S /\ x \notin SeqSet(pref))
+P_reloadcfg(s, f) ==
+  LET fr == s.fr[f]
+      \* the request is copied into the frame at the first step: other requests arrive while this one is under way
+      q == IF fr.pc = "0" THEN s.creq ELSE fr.m
+      cur == [j \in 1..Len(s.wl) |-> WL(s, s.wl[j])]            \* iter_watchers(): the list
+      base == cur \o FileNames(q)
+      idx(n) == Min(ByName(s, n))                                \* get_watcher(n): the dict
+  IN
+  CASE fr.pc = "0" ->
+         Goto(SetM(SetL(s, f, OrderBy(SeqSet(cur) \cap SeqSet(FileNames(q)), q.plan.chg, base)), f,
+                   [file |-> q.file, plan |-> q.plan, chg |-> <<>>]), f, "c1")
+    \* -- for n in maybechanged_wn
+    [] fr.pc = "c1" -> IF fr.l = <<>> THEN Goto(s, f, "d0")
+                       ELSE Emit(Goto(s, f, "c2"), Line("selw", Head(fr.l), 0, 0, "", ""))
+    [] fr.pc = "c2" -> Emit(Goto(s, f, "c3"), Line("selc", Head(fr.l), 0, 0, "", ""))
+    [] fr.pc = "c3" ->
+         LET n == Head(fr.l) i == idx(n) c == s.cfg.ws[i] r == FileRec(q, n) IN
+         IF ~CfgSame(c, r) THEN Goto(SetM(SetL(s, f, Tail(fr.l)), f, [fr.m EXCEPT !.chg = Append(@, n)]), f, "c1")   \* delete + add
+         ELSE IF c.np # r.np THEN Call(s, f, "c4", "set_numprocesses", i, 0, r.np, 0)
+         ELSE Goto(SetL(s, f, Tail(fr.l)), f, "c1")
+    [] fr.pc = "c4" -> Await(s, f, "c5")
+    [] fr.pc = "c5" ->
+         LET n == Head(fr.l) i == idx(n) r == FileRec(q, n) IN
+         IF KidR(s, f) = 3 THEN Ret(DropKids(s, f), f, 3)
+         ELSE Goto(SetL([DropKids(s, f) EXCEPT !.cfg.ws[i].np = r.np], f, Tail(fr.l)), f, "c1")      \* (as repaired: c69ce93)
+    \* -- for n in deleted_wn: stop it, then take it out of the dict and the list
+    [] fr.pc = "d0" ->
+         Goto(SetL(s, f, OrderBy((SeqSet(cur) \ SeqSet(FileNames(q))) \cup SeqSet(fr.m.chg), q.plan.del, base)), f, "d1")
+    [] fr.pc = "d1" -> IF fr.l = <<>> THEN Goto(s, f, "a0")
+                       ELSE Emit(Goto(s, f, "d2"), Line("selw", Head(fr.l), 0, 0, "", ""))
+    [] fr.pc = "d2" -> Call(s, f, "d3", "_stop", idx(Head(fr.l)), 0, 0, 0)
+    [] fr.pc = "d3" -> Await(s, f, "d4")
+    [] fr.pc = "d4" ->
+         LET n == Head(fr.l) i == idx(n) IN
+         Goto(SetL([DropKids(s, f) EXCEPT !.wn = SelectSeq(@, LAMBDA e : e.k # n),
+                                          !.wl = SelectSeq(@, LAMBDA j : j # i)], f, Tail(fr.l)), f, "d1")
+    \* -- for n in added_wn: build it, start it (and wait out the global warm-up), only then register it
+    [] fr.pc = "a0" ->
+         Goto(SetL(s, f, OrderBy((SeqSet(FileNames(q)) \ SeqSet(cur)) \cup SeqSet(fr.m.chg), q.plan.add, base)), f, "a1")
+    [] fr.pc = "a1" -> IF fr.l = <<>> THEN Ret(s, f, 1)
+                       ELSE Emit(Goto(s, f, "a2"), Line("selc", Head(fr.l), 0, 0, "", ""))
+    [] fr.pc = "a2" ->
+         LET r == FileRec(q, Head(fr.l)) nn == NW(s) + 1
+             wc == [n |-> r.n, ln |-> r.ln, np |-> r.np, G |-> r.G, W |-> r.W, sing |-> r.sing, resp |-> r.resp,
+                    auto |-> r.auto, prio |-> r.prio, ssig |-> r.ssig, sch |-> r.sch, hup |-> r.hup, hooks |-> <<>>,
+                    retry |-> r.retry, ver |-> r.ver]
+             wr == [st |-> "stopped", rel |-> FALSE, np |-> r.np, pr |-> <<>>, sing |-> r.sing, resp |-> r.resp, od |-> FALSE,
+                    G |-> r.G, W |-> r.W, ssig |-> r.ssig, sch |-> r.sch, hup |-> r.hup] IN
+         IF r.sing /\ r.np > 1 THEN Ret(s, f, 3)          \* Watcher(): ValueError
+         ELSE Goto(SetA([s EXCEPT !.cfg.ws = Append(@, wc), !.ws = Append(@, wr)], f, nn), f, "a3")
+    [] fr.pc = "a3" -> IF s.cfg.ws[fr.a].auto THEN Call(s, f, "a4", "_start", fr.a, 0, 0, 0) ELSE Goto(s, f, "a6")
+    [] fr.pc = "a4" -> Await(s, f, "a5")
+    [] fr.pc = "a5" -> Sleep(DropKids(s, f), f, s.cfg.wg, "a6")
+    [] fr.pc = "a6" ->
+         Goto(SetL([s EXCEPT !.wl = Append(@, fr.a), !.wn = Append(@, [k |-> Head(fr.l), i |-> fr.a])], f, Tail(fr.l)), f, "a1")
+
 \* ---- Arbiter.start() with a provided loop: synchronized("arbiter_start_watchers")(start_watchers)
 P_boot(s, f) ==
   LET fr == s.fr[f] IN
@@ -895,7 +969,7 @@ QuitReq == [cmd |-> "quit", name |-> "", lname |-> "", hasname |-> FALSE, mid |-
             cast |-> FALSE, pid |-> -1, signum |-> -1, children |-> FALSE, recursive |-> FALSE, childpid |-> -1,
             nb |-> 1, G |-> -1, nostop |-> FALSE, graceful |-> TRUE, sequential |-> FALSE, raw |-> FALSE,
             start |-> FALSE, addnp |-> 1, addG |-> 1, addW |-> 0, addsing |-> FALSE, nopts |-> 1, pattern |-> FALSE,
-            opts |-> <<>>, matches |-> <<>>]
+            opts |-> <<>>, matches |-> <<>>, file |-> <<>>, plan |-> [chg |-> <<>>, del |-> <<>>, add |-> <<>>]]
 
 Dispatch(s, f, ob) ==
   LET fn == s.fr[f].fn IN
@@ -929,6 +1003,7 @@ Dispatch(s, f, ob) ==
     [] fn = "exit" -> P_exit(s, f)
     [] fn = "boot" -> P_boot(s, f)
     [] fn = "rm" -> P_rm(s, f)
+    [] fn = "reloadcfg" -> P_reloadcfg(s, f)
 
 \* the observable projection WITHOUT the pending-activity count (what the recorder compares for "cb" lines)
 ObsCore(s) ==
